@@ -48,6 +48,12 @@ func vfHostileNames(root string) []vfHostile {
 		{"dotdot-backslash", []string{"..\\", "planted.txt"}, ""},
 		{"dotdot-space", []string{".. ", "planted.txt"}, ""},
 		{"name-trailing-slash", []string{"x/"}, ""},
+		{"slash-dotdot", []string{"/../planted.txt"}, ""},
+		{"slash-dotdot-elems", []string{"a", "/..", "/..", "planted.txt"}, ""},
+		{"slash-dotdot-dir", []string{"/../newdir", "f.txt"}, ""},
+		{"slash-dotdot-deep", []string{"/../../planted2.txt"}, ""},
+		{"slash-only", []string{"/"}, ""},
+		{"slash-name", []string{"/planted-here.txt"}, ""},
 		{"canary", []string{"..", "canary.txt"}, ""},
 		{"outer-canary", []string{"..", "..", "outer.txt"}, ""},
 	}
